@@ -887,6 +887,13 @@ make_refused_pairs(size_t N, struct pair *p, struct part_limits lim)
     for (unsigned k = 0; k < 3; ++k)
         for (unsigned j = 0; j < 3; ++j)
             p[n++] = (struct pair){ lim.offmax - k, k + 1 + j, true, k };
+    /* the mirror image: an offset inside the data and a length at the top of the
+     * length's type; where both parameters have the same width the sum wraps to
+     * offset - 1 - k, an offset inside the data again.  Every such part reaches
+     * beyond the data size whatever the widths are. */
+    for (size_t off = 0; off <= N; ++off)
+        for (unsigned k = 0; k < 3; ++k)
+            p[n++] = (struct pair){ off, lim.lenmax - k, false, 0 };
     /* offsets and lengths at and above 2^32 (and 2^31) whose low 32 bits describe
      * a part inside the data: refused, unless the arithmetic is done in a
      * narrower type than the parameters have.  Only those the prototype can be
@@ -915,7 +922,7 @@ limit_name(unsigned long long v)
 static void
 scenario_refuse(const struct cfg *c)
 {
-    struct pair pairs[2 * (NMAX + 1) + 9 + 8];
+    struct pair pairs[2 * (NMAX + 1) + 9 + 3 * (NMAX + 1) + 8];
     unsigned char image[NMAX];
     for (int which = 0; which < 2; ++which) {
         const struct part_limits lim = part_limits(which);
@@ -1860,19 +1867,19 @@ main(int argc, char **argv)
                     }
     }
     /* what the prototypes let scenario C hand in */
-    char cpairs[200];
+    char cpairs[400];
     {
         const struct part_limits ls = part_limits(0), lf = part_limits(1);
         const bool wide = ls.offmax > 0xffffffffull && ls.lenmax > 0xffffffffull && lf.offmax > 0xffffffffull
                           && lf.lenmax > 0xffffffffull;
         snprintf(cpairs, sizeof cpairs,
-                 "C: offset+len = N+1, N+2, 9 overflow pairs at the top of the offset type (store_part %s, "
+                 "C: offset+len = N+1, N+2, 9 overflow pairs at the top of the offset type and every offset 0..N with the 3 largest lengths of the length type (store_part %s, "
                  "fetch_part %s), pairs at and above 2^31/2^32 %s",
                  limit_name(ls.offmax), limit_name(lf.offmax),
                  wide ? "(8: the prototypes take 64-bit offsets and lengths)"
                       : "only as far as the prototypes' parameter types represent them");
     }
-    char bound[2800];
+    char bound[3100];
     snprintf(bound, sizeof bound,
              "data sizes 1..%zu%s x placements {0,1,7,100,straddling 2^16,straddling 2^31,ending at 2^32} x "
              "{default sum16, CRC-16/ARC, sum32} x both configuration orders x auxiliary buffer {none, 0..N+1} x "
